@@ -164,6 +164,10 @@ impl Part for Framing {
     fn block(&self, _tier: Tier) -> u64 {
         500
     }
+    fn fresh_thread(&self) -> bool {
+        // no entropy, no hashed collections, no select! anywhere in this rig's code path
+        false
+    }
     fn gen(&self, seed: u64, tier: Tier) -> Value {
         let mut r = Rng::new(seed);
         let mut sim = SimConfig::from_seed(seed);
